@@ -12,7 +12,12 @@ def retCase (req : Lean.Json) : Lean.Json :=
                   tasks := (jarr req "tasks").toList.map (fun t => let a := asArr t; ⟨asStr a[0]!, asStr a[1]!⟩),
                   messages := [] }
   match retentionCheck (jbool req "keep") ((jarr req "finished").toList.map asStr) s with
-  | none => Lean.Json.mkObj [("ok", Lean.Json.bool true)]
   | some (why, pid) => Lean.Json.mkObj [("ok", Lean.Json.bool false), ("why", Lean.Json.str why), ("pid", Lean.Json.str pid)]
+  | none =>
+    -- with keep_processes: "settled" = processes that ended before this operation, "states" = [[pid, terminal?], …] of the task rows
+    let rows : List (String × Bool) := (jarr req "states").toList.map fun t => let a := asArr t; (asStr a[0]!, match a[1]! with | .bool b => b | _ => true)
+    match (if jbool req "keep" then keptRowsCheck ((jarr req "settled").toList.map asStr) rows else none) with
+    | some pid => Lean.Json.mkObj [("ok", Lean.Json.bool false), ("why", Lean.Json.str "kept-task-row-not-terminal"), ("pid", Lean.Json.str pid)]
+    | none => Lean.Json.mkObj [("ok", Lean.Json.bool true)]
 
 end Acts.Driver
